@@ -37,6 +37,88 @@ fn eval(a: &[String]) -> String {
     "month_next" => { let r = SolarMonth::from_ym(v[0] as isize, v[1] as usize).next(v[2] as isize); format!("{} {}", r.get_year(), r.get_month()) }
     "season_next" => { let r = SolarSeason::from_index(v[0] as isize, v[1] as usize).next(v[2] as isize); format!("{} {}", r.get_year(), r.get_index()) }
     "half_next" => { let r = SolarHalfYear::from_index(v[0] as isize, v[1] as usize).next(v[2] as isize); format!("{} {}", r.get_year(), r.get_index()) }
+    "eight_char_sign" => {
+      // which(0 origin,1 breath,2 own,3 body) y m d h (pillar indices) -> pillar index of the sign
+      use tyme4rs::tyme::eightchar::EightChar;
+      use tyme4rs::tyme::sixtycycle::SixtyCycle;
+      let ec = EightChar::from_sixty_cycle(SixtyCycle::from_index(v[1] as isize), SixtyCycle::from_index(v[2] as isize), SixtyCycle::from_index(v[3] as isize), SixtyCycle::from_index(v[4] as isize));
+      let r = match v[0] { 0 => ec.get_fetal_origin(), 1 => ec.get_fetal_breath(), 2 => ec.get_own_sign(), _ => ec.get_body_sign() };
+      format!("{}", r.get_index())
+    }
+    "lunar_day_pillar" => {
+      // residue of the month's first day number mod 60, day -> "daynumber pillarindex" of a real lunar day with that residue
+      use tyme4rs::tyme::lunar::{LunarDay, LunarMonth};
+      let mut m = LunarMonth::from_ym(2000, 1);
+      let mut out = "NONE".to_string();
+      for _ in 0..400 {
+        let x = m.get_first_julian_day().get_day() as i64;
+        if x.rem_euclid(60) == v[0] && (m.get_day_count() as i64) >= v[1] {
+          let d = LunarDay::from_ymd(m.get_year(), m.get_month_with_leap(), v[1] as usize);
+          out = format!("{} {}", x + v[1] - 1, d.get_sixty_cycle().get_index());
+          break;
+        }
+        m = m.next(1);
+      }
+      out
+    }
+    "lunar_month_pillar" => {
+      // year stem, index in year -> pillar index of a real lunar month with these
+      use tyme4rs::tyme::lunar::LunarYear;
+      let mut out = "NONE".to_string();
+      for y in 1990..2100 {
+        if ((y - 4) as i64).rem_euclid(10) != v[0] { continue; }
+        let ms = LunarYear::from_year(y).get_months();
+        if (v[1] as usize) < ms.len() { out = format!("{}", ms[v[1] as usize].get_sixty_cycle().get_index()); break; }
+      }
+      out
+    }
+    "lunar_hour_pillar" => {
+      // day pillar index, hour -> hour pillar index on a real day with that pillar
+      use tyme4rs::tyme::lunar::LunarHour;
+      let mut d = SolarDay::from_ymd(2000, 1, 1);
+      let mut out = "NONE".to_string();
+      for _ in 0..70 {
+        let l = d.get_lunar_day();
+        if l.get_sixty_cycle().get_index() as i64 == v[0] {
+          out = format!("{}", LunarHour::from_ymd_hms(l.get_year(), l.get_month(), l.get_day(), v[1] as usize, 0, 0).get_sixty_cycle().get_index());
+          break;
+        }
+        d = d.next(1);
+      }
+      out
+    }
+    "first_month" => {
+      use tyme4rs::tyme::sixtycycle::SixtyCycleYear;
+      format!("{}", SixtyCycleYear::from_year(v[0] as isize).get_first_month().get_sixty_cycle().get_index())
+    }
+    "year_pillar" => {
+      use tyme4rs::tyme::sixtycycle::SixtyCycleYear;
+      use tyme4rs::tyme::lunar::LunarYear;
+      format!("{} {}", SixtyCycleYear::from_year(v[0] as isize).get_sixty_cycle().get_index(), LunarYear::from_year(v[0] as isize).get_sixty_cycle().get_index())
+    }
+    "sixty_month_next" => {
+      use tyme4rs::tyme::sixtycycle::SixtyCycleMonth;
+      // year, month pillar index, n: build the month by stepping from the year's first month to that pillar
+      let first = SixtyCycleMonth::from_index(v[0] as isize, 0);
+      let fk = first.get_sixty_cycle().get_index() as i64;
+      let steps = (v[1] - fk).rem_euclid(60);
+      if steps >= 12 { return "NOT-A-MONTH-OF-THAT-YEAR".to_string(); }
+      let m = SixtyCycleMonth::from_index(v[0] as isize, steps as isize);
+      let r = m.next(v[2] as isize);
+      format!("{} {}", r.get_sixty_cycle_year().get_year(), r.get_sixty_cycle().get_index())
+    }
+    "six_star" => {
+      // month number, leap flag, day -> six star index on a real lunar day with these
+      use tyme4rs::tyme::lunar::{LunarDay, LunarYear};
+      let mut out = "NONE".to_string();
+      for y in 1990..2100 {
+        let ly = LunarYear::from_year(y);
+        if v[1] == 1 && ly.get_leap_month() as i64 != v[0] { continue; }
+        let mm = if v[1] == 1 { -v[0] } else { v[0] };
+        if let Ok(d) = LunarDay::new(y, mm as isize, v[2] as usize) { out = format!("{}", d.get_six_star().get_index()); break; }
+      }
+      out
+    }
     _ => "UNKNOWN".to_string(),
   }
 }
